@@ -313,6 +313,23 @@ class Form:
             for m2, c2 in o.terms.items():
                 m, extra = mono_mul(m1, m2)
                 c = cmul(cmul(c1, c2), extra)
+                if any(a[0] == "grp" and e.denominator == 1 and 1 <= e <= 3 for a, e in m):
+                    # (sum)**k with small positive integer k: expand back into the polynomial
+                    sub = Form({tuple((a, e) for a, e in m if not (a[0] == "grp" and e.denominator == 1 and 1 <= e <= 3)): c})
+                    for a, e in m:
+                        if a[0] == "grp" and e.denominator == 1 and 1 <= e <= 3:
+                            for _ in range(int(e)):
+                                sub = sub * a[1]
+                    for mm, cc in sub.terms.items():
+                        if mm in t:
+                            n = (t[mm][0] + cc[0], t[mm][1] + cc[1])
+                            if n[0] == 0 and n[1] == 0:
+                                del t[mm]
+                            else:
+                                t[mm] = n
+                        else:
+                            t[mm] = cc
+                    continue
                 if m in t:
                     n = (t[m][0] + c[0], t[m][1] + c[1])
                     if n[0] == 0 and n[1] == 0:
@@ -583,6 +600,9 @@ def fpow(base: Form, exp) -> Form:
         for a, e in m:
             if a[0] == "fn" and a[1] in _EXPFAM:
                 res = res * mk_fn(a[1], [a[2][0] * Form.num(e * q)], [])
+            elif a[0] == "grp" and (e * q).denominator == 1 and 1 <= e * q <= 3:
+                for _ in range(int(e * q)):
+                    res = res * a[1]
             else:
                 mm, extra = mono_norm({a: e * q})
                 res = res * Form({mm: extra})
@@ -593,8 +613,28 @@ def fpow(base: Form, exp) -> Form:
         for _ in range(int(q) - 1):
             r = r * base
         return r
+    # normalise the content: (2M-2)**-1 == 1/2*(M-1)**-1
+    lead = _leading_coef(base)
+    if lead is not None and lead != 1:
+        c0 = lead if q.denominator == 1 else abs(lead)
+        if c0 != 1 and c0 != 0:
+            inner = Form({m: (c[0] / c0, c[1] / c0) for m, c in base.terms.items()})
+            outer = Form.num(c0 ** int(q)) if q.denominator == 1 else num_pow(c0, q)
+            mm, extra = mono_norm({("grp", inner): q})
+            return outer * Form({mm: extra})
     mm, extra = mono_norm({("grp", base): q})
     return Form({mm: extra})
+
+
+def _leading_coef(f: "Form"):
+    """real rational coefficient of the canonical leading monomial, or None"""
+    items = sorted(f.terms.items(), key=lambda mc: (len(mc[0]) == 0, [(atom_str(a), e) for a, e in mc[0]]))
+    if not items:
+        return None
+    m, c = items[0]
+    if c[1] != 0:
+        return None
+    return c[0]
 
 
 # canonical commutative / structural rewrites for function atoms
